@@ -34,6 +34,153 @@ func (s *TermStore) ClearVarRange(v *Term) {
 	}
 }
 
+// LearnRange intersects the interval of an arbitrary term with [lo,hi]: a fact that the
+// current path condition implies (learned from a decided comparison with a constant). Facts are
+// per path: ResetLearned is called when a path starts.
+func (s *TermStore) LearnRange(t *Term, lo, hi uint64) {
+	if t.IsConst() || lo > hi {
+		return
+	}
+	if s.learned == nil {
+		s.learned = map[*Term]rng{}
+	}
+	cur, ok := s.learned[t]
+	if !ok {
+		cur = rng{0, mask(t.width)}
+	}
+	if lo > cur.lo {
+		cur.lo = lo
+	}
+	if hi < cur.hi {
+		cur.hi = hi
+	}
+	if cur.lo > cur.hi {
+		return // contradictory with an earlier fact: the path is infeasible anyway
+	}
+	if old, had := s.learned[t]; had && old == cur {
+		return
+	}
+	s.learned[t] = cur
+	s.rangeEpoch++
+	if s.varRange == nil {
+		s.varRange = map[*Term]rng{} // switches the range-based rewrites on
+	}
+}
+
+func (s *TermStore) ResetLearned() {
+	if len(s.learned) > 0 {
+		s.learned = nil
+		s.rangeEpoch++
+	}
+}
+
+// LearnFromCond records what a decided comparison against a constant says about the other
+// side, when that is a contiguous interval of unsigned values.
+func (s *TermStore) LearnFromCond(c *Term, val bool) {
+	for c.op == OpNot {
+		c, val = c.args[0], !val
+	}
+	switch c.op {
+	case OpAnd:
+		if val {
+			s.LearnFromCond(c.args[0], true)
+			s.LearnFromCond(c.args[1], true)
+		}
+		return
+	case OpOr:
+		if !val {
+			s.LearnFromCond(c.args[0], false)
+			s.LearnFromCond(c.args[1], false)
+		}
+		return
+	case OpEq:
+		a, b := c.args[0], c.args[1]
+		if a.width == 0 {
+			return
+		}
+		if a.IsConst() {
+			a, b = b, a
+		}
+		if b.IsConst() && val {
+			s.LearnRange(a, b.val, b.val)
+		}
+		return
+	case OpULt, OpULe, OpSLt, OpSLe:
+	default:
+		return
+	}
+	a, b := c.args[0], c.args[1]
+	w := a.width
+	if w == 0 || (!a.IsConst() && !b.IsConst()) || (a.IsConst() && b.IsConst()) {
+		return
+	}
+	m := mask(w)
+	half := uint64(1) << uint(w-1)
+	signed := c.op == OpSLt || c.op == OpSLe
+	strict := c.op == OpULt || c.op == OpSLt
+	// normalise to: t REL k, REL one of < <= > >=
+	var t *Term
+	var k uint64
+	var rel string
+	if b.IsConst() {
+		t, k = a, b.val
+		switch {
+		case val && strict:
+			rel = "<"
+		case val && !strict:
+			rel = "<="
+		case !val && strict:
+			rel = ">="
+		default:
+			rel = ">"
+		}
+	} else {
+		t, k = b, a.val
+		switch { // k REL t
+		case val && strict:
+			rel = ">"
+		case val && !strict:
+			rel = ">="
+		case !val && strict:
+			rel = "<="
+		default:
+			rel = "<"
+		}
+	}
+	if rel == "<" {
+		if (signed && k == half) || (!signed && k == 0) {
+			return // unsatisfiable
+		}
+		k, rel = (k-1)&m, "<="
+	}
+	if rel == ">" {
+		if (signed && k == half-1) || (!signed && k == m) {
+			return
+		}
+		k, rel = (k+1)&m, ">="
+	}
+	if !signed {
+		if rel == "<=" {
+			s.LearnRange(t, 0, k)
+		} else {
+			s.LearnRange(t, k, m)
+		}
+		return
+	}
+	kneg := k >= half
+	cur := s.Range(t)
+	switch {
+	case rel == "<=" && kneg: // t in [min, k] (all negative)
+		s.LearnRange(t, half, k)
+	case rel == ">=" && !kneg: // t in [k, max] (all non-negative)
+		s.LearnRange(t, k, half-1)
+	case rel == "<=" && !kneg && cur.hi < half: // already known non-negative
+		s.LearnRange(t, 0, k)
+	case rel == ">=" && kneg && cur.lo >= half: // already known negative
+		s.LearnRange(t, k, m)
+	}
+}
+
 func full(w int) rng { return rng{0, mask(w)} }
 
 // Range returns an interval containing the unsigned value of bit-vector term t.
@@ -48,6 +195,17 @@ func (s *TermStore) Range(t *Term) rng {
 		return rng{t.rlo, t.rhi}
 	}
 	r := s.computeRange(t)
+	if l, ok := s.learned[t]; ok {
+		if l.lo > r.lo {
+			r.lo = l.lo
+		}
+		if l.hi < r.hi {
+			r.hi = l.hi
+		}
+		if r.lo > r.hi { // infeasible path: any sound answer will do
+			r = rng{l.lo, l.hi}
+		}
+	}
 	t.rlo, t.rhi, t.rEpoch = r.lo, r.hi, s.rangeEpoch+1
 	return r
 }
@@ -103,6 +261,9 @@ func (s *TermStore) computeRange(t *Term) rng {
 		if a.lo >= b.hi {
 			return rng{a.lo - b.hi, a.hi - b.lo}
 		}
+		if a.hi < b.lo && w == 64 { // always borrows exactly once: a - b + 2^64
+			return rng{a.lo - b.hi, a.hi - b.lo}
+		}
 		return f
 	case OpMul:
 		a, b := s.Range(t.args[0]), s.Range(t.args[1])
@@ -110,6 +271,18 @@ func (s *TermStore) computeRange(t *Term) rng {
 		if h1 == 0 && l1 <= mask(w) {
 			_, l0 := bits.Mul64(a.lo, b.lo)
 			return rng{l0, l1}
+		}
+		if w == 64 && a.lo >= uint64(1)<<63 && b.hi < uint64(1)<<63 {
+			// a entirely negative (two's complement), b non-negative: -(|a| * b) if it fits
+			mlo, mhi := -a.hi, -a.lo // magnitudes, mlo <= mhi
+			h, l := bits.Mul64(mhi, b.hi)
+			if h == 0 && l <= uint64(1)<<63 {
+				_, l0 := bits.Mul64(mlo, b.lo)
+				if l0 == 0 {
+					return f // could be zero: the range would wrap around
+				}
+				return rng{-l, -l0}
+			}
 		}
 		return f
 	case OpUDiv:
@@ -190,7 +363,7 @@ func (s *TermStore) computeRange(t *Term) rng {
 	return f
 }
 
-const narrowSpan = 1 << 24
+const narrowSpan = 1 << 28
 
 // divByConst rewrites a/c or a%c (unsigned semantics; the caller guarantees that for the
 // signed operators both operands are non-negative). Returns nil when nothing applies.
@@ -198,6 +371,36 @@ func (s *TermStore) divByConst(rem bool, a *Term, c uint64) *Term {
 	w := a.width
 	if c == 0 || a.IsConst() {
 		return nil
+	}
+	// (x*c + y) / c = x and (x*c + y) % c = y when 0 <= y < c and nothing wraps
+	if a.op == OpAdd {
+		for i := 0; i < 2; i++ {
+			mul, y := a.args[i], a.args[1-i]
+			if mul.op != OpMul {
+				continue
+			}
+			var x *Term
+			if mul.args[1].IsConst() && mul.args[1].val == c {
+				x = mul.args[0]
+			} else if mul.args[0].IsConst() && mul.args[0].val == c {
+				x = mul.args[1]
+			}
+			if x == nil {
+				continue
+			}
+			ry, rx := s.Range(y), s.Range(x)
+			if ry.hi >= c {
+				continue
+			}
+			hi, lo := bits.Mul64(rx.hi, c)
+			if hi != 0 || lo > mask(w)-ry.hi || (w == 64 && lo+ry.hi >= uint64(1)<<63) {
+				continue // could wrap, or leave the non-negative signed range
+			}
+			if rem {
+				return y
+			}
+			return x
+		}
 	}
 	r := s.Range(a)
 	if r.lo == 0 && r.hi == mask(w) {
